@@ -485,6 +485,7 @@ def renameStep (nameOf : Str → Option Str) (st : RState) (r : Str × Str) : RS
   | some gname =>
     if truthyS (st.shadowedBy r.2) then st       -- "already shadowed by"
     else if truthyS (st.shadows r.2) then st     -- "already shadows"
+    else if truthyS (st.shadowedBy r.1) then st  -- "is already shadowed by ..., can't shadow ... as well"
     else match nameOf r.1 with
       | none => st
       | some fname =>
@@ -529,24 +530,37 @@ def candPrio (c : List (Str × Nat)) (n : Str) : Option Nat :=
   -- later dict assignments overwrite earlier ones with the same key
   (c.reverse.find? (fun x => x.1 = n)).map (·.2)
 
-/-- the inner `for method in node.methods` loop for one property.  State: the property's
-    (setter, getter) and the methods' (set_property, get_property), by position. -/
-def accessorStep (p : PropInfo) (setter : Option Str) (cands : List (Str × Nat))
-    (st : (Option Str × Option Str) × List (Method × Option Str × Option Str)) (i : Nat) :
-    (Option Str × Option Str) × List (Method × Option Str × Option Str) :=
-  match st.2[i]? with
+/-- state of the inner `for method in node.methods` loop for one property: the property's
+    (setter, getter), the methods' (set_property, get_property) by position, and the positions of
+    `inferred_getters` (methods whose get_property was None and was filled in by the heuristic) -/
+structure AccSt where
+  prop : Option Str × Option Str
+  ms : List (Method × Option Str × Option Str)
+  inferred : List Nat := []
+
+/-- one iteration of the inner `for method in node.methods` loop -/
+def accessorStep (p : PropInfo) (setter : Option Str) (cands : List (Str × Nat)) (st : AccSt) (i : Nat) : AccSt :=
+  match st.ms[i]? with
   | none => st
   | some (m, sp, gp) =>
     if setter.isSome && setter = some m.name then
-      ((some m.name, st.1.2), st.2.set i (m, some p.name, gp))
+      { st with prop := (some m.name, st.prop.2), ms := st.ms.set i (m, some p.name, gp) }
     else match candPrio cands m.name with
       | some prio =>
-        let cur : Int := match st.1.2 with
+        let cur : Int := match st.prop.2 with
           | some (c :: cs) => match candPrio cands (c :: cs) with | some q => q | none => -1
           | _ => -1
-        let getter' := if (prio : Int) ≥ cur then some m.name else st.1.2
-        ((st.1.1, getter'), st.2.set i (m, sp, some p.name))
+        let getter' := if (prio : Int) ≥ cur then some m.name else st.prop.2
+        { prop := (st.prop.1, getter'), ms := st.ms.set i (m, sp, some p.name),
+          inferred := if gp.isNone then st.inferred ++ [i] else st.inferred }
       | none => st
+
+/-- `for method in inferred_getters: if method.name != prop.getter: method.get_property = None` -/
+def dropUnchosen (getter : Option Str) (ms : List (Method × Option Str × Option Str)) (inferred : List Nat) :
+    List (Method × Option Str × Option Str) :=
+  inferred.foldl (fun ms i => match ms[i]? with
+    | some (m, sp, _) => if getter = some m.name then ms else ms.set i (m, sp, none)
+    | none => ms) ms
 
 /-- `_pair_property_accessors` for one property -/
 def pairOne (p : PropInfo) (pe : Option Str × Option Str) (ms : List (Method × Option Str × Option Str)) :
@@ -555,7 +569,8 @@ def pairOne (p : PropInfo) (pe : Option Str × Option Str) (ms : List (Method ×
     | some s => some s
     | none => if p.writable && !p.constructOnly then some ("set_".toList ++ replaceMinus p.name) else none
   let cands := getterCandidates p pe.2
-  (List.range ms.length).foldl (accessorStep p setter cands) (pe, ms)
+  let st := (List.range ms.length).foldl (accessorStep p setter cands) { prop := pe, ms := ms }
+  (st.prop, dropUnchosen st.prop.2 st.ms st.inferred)
 
 
 /-! ### the whole identifier-level pipeline, in the order of `MainTransformer.transform` -/
@@ -695,7 +710,7 @@ def writeAttrs (k : WKind) (introspectable : Bool) (e : Elem) (sh sb : Option St
   | .union => genericAttrs k introspectable e ++ optAttr "copy-function" e.copyFunc ++ optAttr "free-function" e.freeFunc
   | .property =>
     genericAttrs k introspectable e ++ optAttr "setter" e.setter ++ optAttr "getter" e.getter
-    ++ optAttr "default-value" e.defaultValue
+    ++ someAttr "default-value" e.defaultValue   -- `is not None`: an empty default is written
   | .signal => optAttr "emitter" e.emitter ++ genericAttrs k introspectable e
   | .constant => someAttr "value" e.value ++ genericAttrs k introspectable e
   | _ => genericAttrs k introspectable e
